@@ -34,7 +34,8 @@ MANIFEST = dict(
 )
 
 IMPORTS = ['Coq.Lists.List', 'Coq.Bool.Bool', 'Coq.ZArith.ZArith', 'Coq.Strings.String', 'SV.SM.Store', 'SV.SM.StoreCert',
-           'SV.SM.StoreCopy', 'SV.SM.KvAdd', 'SV.Gen.CopyCensus_gen', 'SV.Props.C09']
+           'SV.SM.StoreCopy', 'SV.SM.StoreCopySrc', 'SV.SM.StoreCopyExport', 'SV.SM.KvAdd', 'SV.SM.KvAddFresh',
+           'SV.Gen.CopyCensus_gen', 'SV.Gen.CopyExportReads_gen', 'SV.Props.C09']
 CORPUS = hc.VERIF / 'corpus' / 'C09'
 
 
@@ -148,7 +149,7 @@ def run_copy_case(kind: str, case_seed: int, variant: str, n_mut: int, collect: 
 
 def search_copies(ck: Ck) -> None:
     from harness import c09_util as U
-    n = _budget(ck, 3500, 40000)
+    n = _budget(ck, 2400, 40000)
     cases: list[tuple[str, int, str]] = []
     if CORPUS.exists():
         for p in sorted(CORPUS.glob('*.json')):
@@ -306,11 +307,16 @@ def corr_census_runtime(ck: Ck, side: dict) -> None:
         for o, c in pairs:
             ck.count('census_runtime_pairs')
             for f, _kind, how, _detail in rows:
+                # the census says from WHICH field of the original the field of the copy is built
+                srcs = side.get('sources', {}).get(lab, {}).get(f, [])
+                sf = srcs[0] if len(srcs) == 1 and how in ('HShare', 'HDeep', 'HShallow') else f
                 try:
-                    a, b = getattr(o, f), getattr(c, f)
+                    a, b = getattr(o, sf), getattr(c, f)
                 except AttributeError:
                     bad.append((lab, f, 'attribute missing at run time', how))
                     continue
+                if sf != f:
+                    ck.hist('census_runtime_cross_field', f'{lab}.{f}<-{sf}')
                 rt = runtime_how(a, b)
                 ck.hist('census_runtime', f'{how}->{rt}')
                 seen_fields.add((lab, f))
@@ -327,6 +333,43 @@ def corr_census_runtime(ck: Ck, side: dict) -> None:
     if uniq:
         ck.tie_broken.append('copy census disagrees with the run-time behaviour of copy(): ' + repr(uniq[:4]))
 
+
+
+def corr_export_reads(ck: Ck, side: dict, eside: dict) -> None:
+    """The translator's export-reads census (static) against the attribute reads traced while the real export runs
+    on generated objects (every reachable map object switched to a logging subclass): every data field really read
+    must be in the static census (the static census over-approximates, which is what copy_export_equal needs)."""
+    from harness import c09_util as U
+    reads = eside.get('reads', {})
+    fields: dict[str, set[str]] = {}
+    for lab, rows in side.get('census', {}).items():
+        fields.setdefault(side.get('class_of', {}).get(lab, lab), set()).update(r[0] for r in rows)
+    n = _budget(ck, 12, 80)
+    missing: set[tuple[str, str]] = set()
+    seen: set[tuple[str, str]] = set()
+    for kind in U.KINDS:
+        for _ in range(n):
+            r = random.Random(ck.rng.randrange(1 << 30))
+            o = U.generate(kind, r, U.VMF())
+            before = U.observe(o)
+            got = U.traced_export_reads(o)
+            if U.observe(o) != before:
+                missing.add((kind, '<tracing changed the export>'))
+            ck.count('export_read_traces')
+            for cname, attr in got:
+                if attr in fields.get(cname, ()):
+                    seen.add((cname, attr))
+                    ck.hist('export_reads_runtime', f'{cname}.{attr}')
+                    if attr not in reads.get(cname, []):
+                        missing.add((cname, attr))
+    never = sorted((c, f) for c, fs in reads.items() for f in fs if (c, f) not in seen and f in fields.get(c, ()))
+    ck.obligation('correspondence:export_reads_vs_runtime', not missing,
+                  f'{len(seen)} (class, field) pairs read by the real export on generated objects, all must be in the static '
+                  f'export-reads census; missing from the census: {sorted(missing)[:8]}; in the census but never read at run '
+                  f'time (over-approximation, harmless): {never[:8]}')
+    ck.extra['export_reads_static_never_read_at_runtime'] = never
+    if missing:
+        ck.tie_broken.append('export-reads census misses fields the real export reads: ' + repr(sorted(missing)[:4]))
 
 
 # ------------------------------------------------------------------------------------------------ operators
@@ -660,37 +703,71 @@ def run(ck: Ck) -> None:
                           'performed through the map (ID managers, indexes, entity lists) are outside C09 (see C07/C08)')
     ck.assumptions.append('observation = export text (Entity/Solid/Side/VisGroup/EntityGroup/Camera/Cordon/Output/EntityFixup '
                           'export, Keyvalues.serialise, str(UVAxis)), IDs masked, visgroup/group id runs sorted (sets)')
+    from translate import c09_export
+    import time as _time
+    t_last = [_time.time()]
+    phases: dict[str, float] = {}
+
+    def lap(name: str) -> None:       # evidence only (where the wall time goes); never used in a decision
+        now = _time.time()
+        phases[name] = round(phases.get(name, 0.0) + now - t_last[0], 1)
+        t_last[0] = now
+        ck.extra['phase_wall_s'] = phases
     ok_t = ck.translate('CopyCensus_gen', c09_copy.translate)
     side = ck.extra.get('translated', {}).get('CopyCensus_gen', {})
-    built = ok_t and ck.build(['Props/C09.vo'])
+    ok_e = ck.translate('CopyExportReads_gen', c09_export.translate)
+    eside = ck.extra.get('translated', {}).get('CopyExportReads_gen', {})
+    built = ok_t and ok_e and ck.build(['Props/C09.vo'])
     if ok_t:
         ck.sample({'census_Side(field, kind, how, source expression)': side.get('census', {}).get('Side')})
     if built:
+        lap('translate+build')
         ck.theorems('Props/C09.v')
+        lap('print_assumptions')
         obs = {}
         for cls in side.get('classes', []):
             obs[f'copy_covers_fields:{cls}'] = f'copy_covers_fields census_{cls}'
             obs[f'copy_fresh_mutables:{cls}'] = f'copy_fresh_mutables census_{cls}'
+            obs[f'copy_sources_match:{cls}'] = f'copy_sources_match census_{cls} sources_{cls}'
+            real = side.get('class_of', {}).get(cls, cls)
+            obs[f'copy_export_equal:{cls}'] = f'copy_export_ok census_{cls} sources_{cls} export_reads_{real}'
+            obs[f'export_reads_are_fields:{cls}'] = f'reads_are_fields census_{cls} export_reads_{real}'
         obs['kv_add_appends_to_copy_and_returns_it'] = 'recv_is_copy kv_add_recv_single && recv_is_copy kv_add_recv_iter && recv_is_copy kv_add_ret'
         obs['kv_iadd_appends_to_self'] = 'negb (recv_is_copy kv_iadd_recv_single) && negb (recv_is_copy kv_iadd_recv_iter)'
         obs['kv_added_items_are_copied'] = 'kv_add_args_copied && kv_iadd_args_copied && kv_extend_args_copied'
+        obs['kv_add_single_branch_appends_copy'] = 'kv_add_single_copied'
+        obs['kv_add_iter_branch_appends_copy'] = 'kv_add_iter_copied'
+        obs['kv_iadd_single_branch_appends_copy'] = 'kv_iadd_single_copied'
+        obs['kv_iadd_iter_branch_appends_copy'] = 'kv_iadd_iter_copied'
+        obs['all_sources_present'] = 'Nat.eqb (List.length all_sources) %d && all_sources_match' % len(side.get('classes', []))
         obs['all_classes_present'] = 'Nat.eqb (List.length all_census) %d' % len(side.get('classes', []))
         res = ck.instance_obligations(IMPORTS, obs)
         failing = [k for k, v in res.items() if not v]
         if failing:
             ck.tie_broken.append('copy census obligations failed: ' + ', '.join(failing))
-            detail = ck.coq_eval(IMPORTS, [f'(not_covered census_{c}, not_fresh census_{c})' for c in side.get('classes', [])],
-                                 name='census_detail')
+            detail = ck.coq_eval(IMPORTS, [f'(not_covered census_{c}, not_fresh census_{c}, wrong_source census_{c} sources_{c}, '
+                                           f'export_broken census_{c} sources_{c} export_reads_{side.get("class_of", {}).get(c, c)})'
+                                           for c in side.get('classes', [])], name='census_detail')
             if detail:
-                ck.extra['census_offending_fields(not_covered, not_fresh)'] = {
-                    c: d for c, d in zip(side.get('classes', []), detail) if d.replace(' ', '') not in ('(nil,nil)', '([],[])')}
+                ck.extra['census_offending_fields(not_covered, not_fresh, wrong_source, export_broken)'] = {
+                    c: d for c, d in zip(side.get('classes', []), detail) if d.replace(' ', '') not in ('(nil,nil,nil,nil)', '([],[],[],[])')}
+                ck.extra['census_sources_of_offending_classes'] = {
+                    c: side.get('sources', {}).get(c) for c in side.get('classes', []) if not res.get(f'copy_sources_match:{c}', True)}
+        lap('instance_obligations')
         cert_cases(ck)
+        lap('certificates')
         corr_census_runtime(ck, side)
+        corr_export_reads(ck, side, eside)
         corr_kv_add(ck, side)
+        lap('correspondences')
     search_copies(ck)
+    lap('search_copies')
     search_kv_add(ck)
+    lap('search_kv_add')
     search_operators(ck)
+    lap('search_operators')
     search_instancing(ck)
+    lap('search_instancing')
     # explain failed obligations by concrete violations found by the search
     keys = {v['key'] for v in ck.violations}
 
@@ -702,6 +779,8 @@ def run(ck: Ck) -> None:
                   'EntityFixup': ['EntityFixup', 'Entity'], 'Side': ['Side', 'Solid', 'Entity'], 'Solid': ['Solid', 'Entity']}.get(base, [base])
         if any_key(*[f'copy-incomplete:{o}:' for o in owners]):
             ck.explain(f'instance:copy_covers_fields:{cls}')
+            ck.explain(f'instance:copy_sources_match:{cls}')
+            ck.explain(f'instance:copy_export_equal:{cls}')
         if any_key(*[f'shared-mutable:{o}:' for o in owners], *[f'mutation-visible:{o}:' for o in owners]):
             ck.explain(f'instance:copy_fresh_mutables:{cls}')
     if any_key('kv-add-'):
@@ -710,6 +789,10 @@ def run(ck: Ck) -> None:
         ck.explain('instance:kv_iadd_appends_to_self')
     if any_key('kv-'):
         ck.explain('instance:kv_added_items_are_copied')
+        for b in ('kv_add_single', 'kv_add_iter', 'kv_iadd_single', 'kv_iadd_iter'):
+            ck.explain(f'instance:{b}_branch_appends_copy')
+    if any_key('copy-incomplete:'):
+        ck.explain('instance:all_sources_present')
     if any_key('shared-mutable:', 'mutation-visible:'):
         ck.explain('certificate:export_ok')
 
